@@ -45,7 +45,34 @@ class C16(hc.PProp):
     expected_probes = ['crash_points', 'restarts_ok', 'hits_after_restart', 'partial_write_crashes']
     sim_limit_s = 3000
 
+    def plan_overwrite(self, rng, tier, index):
+        """directed stratum: multi-slot objects overwritten by equally long new versions (no-cache refetch / version change), crash points inside the overwrite"""
+        kind = rng.choice(['rock', 'rock', 'ufs', 'both'])
+        conf = {'cache': kind, 'cache_mem_mb': 0, 'lines': ['maximum_object_size_in_memory 0 KB'], 'store_log': True, 'ufs_mb': 64, 'rock_mb': rng.choice([2, 16]), 'rock_slot': rng.choice([4096, 16384])}
+        plan = hc.std_plan(rng, conf, hostile=False)
+        plan['knobs'] = {'net.seg.max': [rng.choice([1460, 16384])], 'clock.tick_us': [1, 20]}
+        n = rng.randint(1, 3)
+        plan['urls'] = []
+        for u in range(n):
+            sz = rng.choice([33000, 70000, 150000])
+            plan['urls'].append({'sizes': [sz, sz], 'lm': True, 'cc': 'max-age=100000', 'framing': rng.choice(['cl', 'chunked']), 'bumps': [rng.randint(3, 6) * 1000000]})
+        steps = []
+        rid = index * 1000
+        for u in range(n):
+            rid += 1; steps.append({'id': rid, 'u': u, 'wait': 0, 'hdrs': [], 'new_conn': False})
+        for u in range(n):
+            rid += 1; steps.append({'id': rid, 'u': u, 'wait': 1000000 if u == 0 else 0, 'hdrs': [], 'new_conn': False})
+        for u in range(n):
+            rid += 1; steps.append({'id': rid, 'u': u, 'wait': 7000000 if u == 0 else 0, 'hdrs': [('Cache-Control', 'no-cache')], 'new_conn': False})
+        plan['clients'] = [{'name': 'c0', 'steps': steps}]
+        ncr = 6 if tier == 'quick' else 0
+        plan['crashes'] = [{'frac': 0.45 + 0.55 * rng.random(), 'partial': rng.choice([None, None, None, 0.5])} for _ in range(ncr)] if ncr else 'all'
+        plan['_lists'] = ['crashes']
+        return plan
+
     def plan(self, rng, tier, index):
+        if index % 5 == 4:
+            return self.plan_overwrite(rng, tier, index)
         kind = rng.choice(['rock', 'rock', 'ufs', 'ufs', 'both'])
         conf = {'cache': kind, 'cache_mem_mb': rng.choice([0, 0, 1]), 'lines': ['maximum_object_size_in_memory 0 KB'] if rng.random() < 0.5 else [], 'store_log': True}
         if kind in ('ufs', 'both'):
@@ -58,6 +85,7 @@ class C16(hc.PProp):
         def two_sizes():
             a = rng.choice(SIZES)
             return [a, a] if rng.random() < 0.35 else [a, rng.choice(SIZES)]    # same-size overwrites reuse exactly the slots/blocks the old version freed
+        plan['directed'] = None
         plan['urls'] = [{'sizes': two_sizes(), 'lm': True, 'cc': 'max-age=100000', 'framing': rng.choice(['cl', 'cl', 'chunked']),
                          'bumps': sorted(rng.randint(1, 20) * 1000000 for _ in range(rng.choice([0, 1, 2])))} for u in range(nurl)]
         steps = []
@@ -154,12 +182,20 @@ class C16(hc.PProp):
                 o.stats['hits_after_restart'] += 1
                 nontrivial.add((k, part))
                 if r.ver is None or r.ver_u != r.u:
-                    o.violations.append(Violation('C16:hit-for-wrong-url', 'after a kill at %s: GET for url %d served from cache carries X-Sim-Ver %r' % (tag, r.u, m.get(b'x-sim-ver')))); continue
+                    o.violations.append(Violation('C16:hit-for-wrong-url:%s:%s' % (plan['conf']['cache'], 'partial-write' if part is not None else 'between-operations'), 'after a kill at %s: GET for url %d served from cache carries X-Sim-Ver %r' % (tag, r.u, m.get(b'x-sim-ver')))); continue
                 if not [s for s in sent1 if s[2] == r.u and s[3] == r.ver and s[4] == 'full']:
-                    o.violations.append(Violation('C16:hit-names-unsent-version', 'after a kill at %s: hit for url %d names version %d, which the origin never sent before the crash' % (tag, r.u, r.ver))); continue
+                    o.violations.append(Violation('C16:hit-names-unsent-version:%s:%s' % (plan['conf']['cache'], 'partial-write' if part is not None else 'between-operations'), 'after a kill at %s: hit for url %d names version %d, which the origin never sent before the crash' % (tag, r.u, r.ver))); continue
                 exp = cf.version_body(plan, r.u, r.ver)
                 if not m.complete or m.body != exp:
-                    cls = ('C16:hit-truncated' if exp.startswith(m.body) else 'C16:hit-bytes-differ') + ':%s:%s' % (plan['conf']['cache'], 'partial-write' if part is not None else 'between-operations')
+                    kind = 'hit-truncated' if exp.startswith(m.body) else 'hit-bytes-differ'
+                    if kind == 'hit-bytes-differ' and len(m.body) == len(exp):
+                        # the head of this version followed by the tail of another, equally long version of the same URL (a same-size overwrite cut short)?
+                        i = next(j for j in range(len(exp)) if m.body[j] != exp[j])
+                        for ov in set(x[3] for x in sent1 if x[2] == r.u and x[3] != r.ver):
+                            ob = cf.version_body(plan, r.u, ov)
+                            if len(ob) == len(exp) and m.body[i:] == ob[i:]:
+                                kind = 'hit-new-head-old-tail'
+                    cls = 'C16:' + kind + ':%s:%s' % (plan['conf']['cache'], 'partial-write' if part is not None else 'between-operations')
                     o.violations.append(Violation(cls, 'after a kill at %s: hit for url %d version %d: %s (complete=%s)' % (tag, r.u, r.ver, hc.diff_desc(m.body, exp), m.complete)))
             simlib.cleanup_rundir(rd)
         import hashlib
